@@ -10,6 +10,7 @@
 import WW.Proofs.Snapshot
 import WW.Proofs.ClaimQuery
 import WW.Proofs.ClaimWeights
+import WW.Proofs.ShareQuery
 namespace WW.C13
 open WW WW.Gen WW.Inc
 
@@ -210,6 +211,48 @@ theorem rewards_query_reads_effW (c : Cfg) (e0 : Nat) (bal : Bal) (ops : List (E
   obtain ⟨ep', hL⟩ := reach_LCI (c := c) ops (init e0 bal) e0 (init_LCI e0 bal) he
   exact query_reads_effW (hL.zero u) n _ _ (claimStart_carry hL u f)
 
+/-- **the share query reads `effW` too**, over ALL histories (no assumption on epochs): in any state
+    reached from a fresh contract, a successful `CurrentEpochRewardsShare` query for address `u` in epoch
+    `E` answers with `u`'s weight in effect for `E` — `effW`, exactly what the claim loop and the rewards
+    query use (`claim_reads_effW`, `rewards_query_reads_effW`): the query's own lookup, "entry with the
+    largest epoch `≤ E` of the address's filtered history map", is the same function because the history
+    never holds two entries for one (address, epoch) (`reach_wkeys`) —, with the epoch's global-weight
+    snapshot and with the floor share `weight · 10^18 / snapshot` (0 when the snapshot is 0). -/
+theorem share_query_reads_effW (c : Cfg) (e0 : Nat) (bal : Bal) (ops : List (Env × Op))
+    (u : Addr) (E w g sh : Nat) (h : qShare (reach c (init e0 bal) ops) u E = .ok (w, g, sh)) :
+    w = Inc.effW (reach c (init e0 bal) ops).whist u E
+    ∧ g = aget (reach c (init e0 bal) ops).snap E
+    ∧ sh = w * E18 / g :=
+  qShare_spec (reach_wkeys ops (init e0 bal) (init_wkeys e0 bal)) h
+
+/-- **the shares the query reports add up to at most 100 %**, over ALL epoch-monotone histories, for every
+    epoch `E` and every list of distinct addresses: whatever the share query answers for them in the
+    reached state (`ans u`, each a successful answer), the reported shares sum to at most `10^18`
+    (= 100 % as a `Decimal256`) — the clause "the reward shares of all addresses, as reported by the
+    share query, add up to at most 100 %" stated on the query's own output. -/
+theorem share_query_sums_le_one (c : Cfg) (e0 : Nat) (bal : Bal) (ops : List (Env × Op))
+    (he : EpochsFrom e0 ops) (E : Nat) (us : List Addr) (hus : us.Nodup)
+    (ans : Addr → Nat × Nat × Nat)
+    (h : ∀ u ∈ us, qShare (reach c (init e0 bal) ops) u E = .ok (ans u)) :
+    (us.map (fun u => (ans u).2.2)).sum ≤ E18 := by
+  have hspec : ∀ u ∈ us, (ans u).2.2
+      = Inc.effW (reach c (init e0 bal) ops).whist u E * E18 / aget (reach c (init e0 bal) ops).snap E := by
+    intro u hu
+    obtain ⟨h1, h2, h3⟩ := share_query_reads_effW c e0 bal ops u E (ans u).1 (ans u).2.1 (ans u).2.2 (h u hu)
+    rw [h3, h1, h2]
+  rw [List.map_congr_left hspec]
+  cases hg : alook (reach c (init e0 bal) ops).snap E with
+  | none =>
+    have : aget (reach c (init e0 bal) ops).snap E = 0 := by unfold aget; rw [hg]; rfl
+    rw [this]
+    simp
+  | some g =>
+    have hag : aget (reach c (init e0 bal) ops).snap E = g := by unfold aget; rw [hg]; rfl
+    rw [hag]
+    by_cases hz : g = 0
+    · subst hz; simp
+    · exact (shares_sum_le_one c e0 bal ops he E g us hus hg (Nat.pos_of_ne_zero hz)).1
+
 /-- the F11 mechanism on its own (kept from the first version; subsumed by `shares_le_one`): in any
     state reachable from a fresh contract and for any further successful operation in epoch `E`
     (a) a snapshot that already exists — for any epoch — is never changed;
@@ -270,5 +313,17 @@ example :
 example : calcWeight 86400 10000 = .ok 10000 ∧ calcWeight 31556926 10000 = .ok 159999
     ∧ calcWeight 15778463 10000 = .ok 49999 ∧ calcWeight 100 64 = .err
     ∧ calcWeight 1000000 1 = .ok 1 ∧ calcWeight 1000000 24 = .ok 25 := by decide
+
+/-- non-vacuity of `share_query_reads_effW` / `share_query_sums_le_one`: the F11 scenario above (alice
+    closes in epoch 2 before any snapshot call) — the query reports weight 1000 of 2000 = 50 % for each. -/
+example :
+    let c : Cfg := { lpNative := false, feeAsset := 1, feeAmt := 1, maxFlows := 3, buffer := 10, minDur := 86400, maxDur := 31556926 }
+    let s0 := init 1 [((1, 0), 5000), ((2, 0), 5000), ((4, 1), 10), ((4, 2), 2000000)]
+    let s := reach c s0 [({ epoch := 1, time := 1000, sender := 1, offers := [(0, 1000)] }, .openPos 1000 86400 none),
+                         ({ epoch := 1, time := 1000, sender := 2, offers := [(0, 1000)] }, .openPos 1000 86400 none),
+                         ({ epoch := 2, time := 1000, sender := 1, offers := [] }, .closePos 86400)]
+    (qShare s 1 2, qShare s 2 2, qShare s 3 2)
+      = (.ok (1000, 2000, 500000000000000000), .ok (1000, 2000, 500000000000000000), .ok (0, 2000, 0))
+    ∧ (Inc.effW s.whist 1 2, Inc.effW s.whist 1 3) = (1000, 0) := by decide
 
 end WW.C13
